@@ -95,9 +95,11 @@ class _Ctx(object):
 
 
 class CFG(object):
-    def __init__(self, unit, may_raise=None, assert_raises=False, class_parent=None):
-        """may_raise(ast_node) -> iterable of exception kind names ('*' = any Exception) or None."""
+    def __init__(self, unit, may_raise=None, assert_raises=False, class_parent=None, inline=None):
+        """may_raise(ast_node) -> iterable of exception kind names ('*' = any Exception) or None.
+        inline(call_ast) -> expression to decompose in place of a boolean helper call, or None."""
         self.unit = unit
+        self._inline = inline
         self.nodes = []
         self._may_raise = may_raise
         self._assert_raises = assert_raises
@@ -248,6 +250,10 @@ class CFG(object):
             return cur
         if isinstance(e, ast.UnaryOp) and isinstance(e.op, ast.Not):
             return self._cond(e.operand, kf, kt, ctx, owner)
+        if self._inline is not None and isinstance(e, ast.Call):
+            body = self._inline(e)
+            if body is not None:
+                return self._cond(body, kt, kf, ctx, owner)
         n = self._new('test', e, owner)
         self._edge(n, 'T', kt)
         self._edge(n, 'F', kf)
